@@ -308,13 +308,30 @@ type fillCase struct {
 	HoleKey  string   `json:"holekey"`  // key of the placeholder pair
 	HoleSide string   `json:"holeside"` // "value" | "key"
 	Renders  int      `json:"renders"`  // renders before the placeholder is filled
+	// SameFile: all renders go through one File object (else a new File per render);
+	// Extend: after the first renders one of the live keys (Keys[ExtendAt]) is continued in place with
+	// .Extend — its text, and with it possibly its place in the order, changes
+	SameFile bool   `json:"samefile,omitempty"`
+	Extend   string `json:"extend,omitempty"`
+	ExtendAt int    `json:"extendat,omitempty"`
 }
 
 func checkFill(c fillCase) error {
+	var grown *jen.Statement
 	build := func(filled bool) (*jen.Statement, *jen.Statement) {
 		d := jen.Dict{}
 		for i, k := range c.Keys {
-			d[jen.Id(k)] = jen.Lit(i)
+			key := jen.Id(k)
+			if c.Extend != "" && i == c.ExtendAt%len(c.Keys) {
+				if filled {
+					key.Dot(c.Extend)
+				} else {
+					grown = key
+				}
+				// a sibling that the grown key has to move past: k < k.Mid < k.Zed
+				d[jen.Id(k).Dot("Mid")] = jen.Lit(7000 + i)
+			}
+			d[key] = jen.Lit(i)
 		}
 		hole := jen.Null()
 		if filled {
@@ -330,9 +347,18 @@ func checkFill(c fillCase) error {
 		}
 		return jen.Var().Id("_").Op("=").Id("T").Values(d), hole
 	}
+	var shared *jen.File
 	render := func(s *jen.Statement) (string, error) {
 		f := jen.NewFile("p")
-		f.Add(s)
+		if c.SameFile {
+			if shared == nil {
+				shared = f
+				f.Add(s)
+			}
+			f = shared
+		} else {
+			f.Add(s)
+		}
 		buf := &bytes.Buffer{}
 		err := f.Render(buf)
 		return buf.String(), err
@@ -348,17 +374,21 @@ func checkFill(c fillCase) error {
 	} else {
 		hole.Lit(4242)
 	}
+	if grown != nil {
+		grown.Dot(c.Extend)
+	}
 	got, err := render(st)
 	if err != nil {
 		return err
 	}
 	wantSt, _ := build(true)
+	shared = nil
 	want, err := render(wantSt)
 	if err != nil {
 		return err
 	}
 	if got != want {
-		return fmt.Errorf("a pair whose %s was a Null() placeholder was filled in after %d render(s); the Dict now renders\n%s\nbut a Dict built with the filled pair renders\n%s", c.HoleSide, c.Renders, got, want)
+		return fmt.Errorf("after %d render(s) (one File for all renders: %v) a pair whose %s was a Null() placeholder was filled in (and a key continued in place with .%s); the Dict now renders\n%s\nbut a Dict built that way from the start renders\n%s", c.Renders, c.SameFile, c.HoleSide, c.Extend, got, want)
 	}
 	return nil
 }
@@ -421,8 +451,9 @@ func genCase(t *rapid.T) Case {
 		p := PairSpec{ID: i}
 		if rapid.IntRange(0, 3).Draw(t, "dupkey") == 0 && len(c.Pairs) > 0 {
 			// a distinct Code value that renders identically to an earlier key
-			p.Key = c.Pairs[rapid.IntRange(0, len(c.Pairs)-1).Draw(t, "dupof")].Key.Clone()
-			if p.Key == nil || p.Key.Kind != recipe.KStmt || len(p.Key.Calls) == 0 || p.Key.Calls[0].Fn == "Null" {
+			src := c.Pairs[rapid.IntRange(0, len(c.Pairs)-1).Draw(t, "dupof")]
+			p.Key = src.Key.Clone()
+			if src.KeyNull || p.Key == nil || p.Key.Kind != recipe.KStmt || len(p.Key.Calls) == 0 || p.Key.Calls[0].Fn == "Null" {
 				p.Key = genKey(t, 0)
 			}
 		} else {
@@ -440,7 +471,14 @@ func genCase(t *rapid.T) Case {
 			v = recipe.Qual(rapid.SampledFrom([]string{"a/d", "b/d", "c/d", "fmt"}).Draw(t, "vpath"), "F").C("Call", recipe.Lit(1000+i))
 		}
 		p.Val = v
-		switch rapid.IntRange(0, 11).Draw(t, "nullside") {
+		switch rapid.IntRange(0, 13).Draw(t, "nullside") {
+		case 12, 13: // dead on both sides
+			p.KeyNull, p.ValNull = true, true
+			p.Key = rapid.SampledFrom([]*recipe.Node{recipe.Null(), recipe.S().C("List"), recipe.S().C("Add")}).Draw(t, "deadkey").Clone()
+			p.Val = rapid.SampledFrom([]*recipe.Node{recipe.Null(), recipe.Nil(), recipe.S().C("List")}).Draw(t, "deadval")
+			if p.Val != nil {
+				p.Val = p.Val.Clone()
+			}
 		case 0:
 			p.KeyNull = true
 			p.Key = recipe.Null()
@@ -541,6 +579,12 @@ func TestC16(t *testing.T) {
 				seen[k] = true
 				c.Keys = append(c.Keys, k)
 			}
+		}
+		c.SameFile = rapid.Bool().Draw(rt, "samefile")
+		if len(c.Keys) > 0 && rapid.Bool().Draw(rt, "extend") {
+			c.Extend = rapid.SampledFrom([]string{"Zed", "a", "m", "_", "x1"}).Draw(rt, "ext")
+			c.ExtendAt = rapid.IntRange(0, len(c.Keys)-1).Draw(rt, "extat")
+			r.Class("fill_after_render:key_extended_in_place")
 		}
 		r.NonTrivial(fmt.Sprintf("%+v", c))
 		r.Class("fill_after_render")
